@@ -732,6 +732,7 @@ pub fn run_spec(spec: &Spec, envs: &Envs, scratch_tag: &str, stop_at_first: bool
     };
     if spec.tier == Tier::Exec {
         if let Err(e) = fs::create_dir_all(dir.join("tmp"))
+            .and_then(|()| fs::create_dir_all(dir.join("home")))
             .and_then(|()| fs::write(dir.join(&spec.file_name), &spec.source))
             .and_then(|()| furnish(&dir))
         {
@@ -746,6 +747,12 @@ pub fn run_spec(spec: &Spec, envs: &Envs, scratch_tag: &str, stop_at_first: bool
         if fs::create_dir_all(&tmp).is_ok() {
             // SAFETY: the worker's main thread is the only thread at this point.
             unsafe { std::env::set_var("TMPDIR", &tmp) };
+        }
+        // and its own home directory (durable state under ~/.cache, ~/.config ...)
+        let home = dir.join("home");
+        if fs::create_dir_all(&home).is_ok() {
+            // SAFETY: as above.
+            unsafe { std::env::set_var("HOME", &home) };
         }
         if spec.mode == "main" && sim_inproc::real_main_available() {
             // the real `run` reads the file itself; a relative path is resolved against the cwd
